@@ -86,6 +86,8 @@ type Interp struct {
 	spec bool
 	specGuard *sym.Term
 	fnInfos map[*ssa.Function]*fnInfo
+	astTypes map[reflect.Type]*types.Struct
+	l1 *l1Prog
 	matchers map[*ahocorasick.Matcher][]string
 }
 
